@@ -351,4 +351,44 @@ func init() {
 	}
 }
 
+func init() {
+	registry["C19"] = func(tier string) []*Job {
+		var js []*Job
+		cfgs := []seqCfg{{"be_writing", 2, 0, 0, 0}, {"bs_max4", 0, 0, 1, 4}}
+		nset := 2
+		if tier == "thorough" {
+			cfgs = append(cfgs, seqCfg{"ber_accessing", 3, 2, 0, 0}, seqCfg{"bwe_w100", 2, 0, 2, 100}, seqCfg{"b", 0, 0, 0, 0}, seqCfg{"ber_custom", 4, 3, 0, 0}, seqCfg{"bse_max4", 2, 0, 1, 4}, seqCfg{"bw_w100", 0, 0, 2, 100}, seqCfg{"bser_max2", 1, 2, 1, 2})
+			nset = 3
+		}
+		for _, c := range cfgs {
+			tmaxes := []int{0}
+			if c.bound != 0 {
+				tmaxes = []int{0, 1, 2}
+			}
+			for _, tm := range tmaxes {
+				ov := 0
+				if c.exp != 0 {
+					ov = 1
+				}
+				def := 1 // unbounded: symbolic clock, deferred executor (no sweep); bounded: concrete clock, sync executor
+				if c.bound != 0 {
+					def = 0
+				}
+				j := mk(sprintf("c19.%s.tmax%d", c.name, tm), rootPkg, "ZZ_C19_SaveLoad",
+					with(cfgParams(c.exp, c.ref, c.bound, c.max, def, 0), "nset", nset, "tmax", tm, "override", ov),
+					func(b *Bounds) { b.Unwind = 70; b.MaxPaths = 600000; b.MaxWallS = 1200 })
+				js = append(js, j)
+			}
+		}
+		for _, j := range js {
+			if j.Params["bound"] == 0 {
+				j.Prefer = "int"
+			}
+		}
+		j := mk("c19.canary", rootPkg, "ZZ_C19_SaveLoad", with(cfgParams(2, 0, 0, 0, 1, 0), "nset", 1, "tmax", 0, "override", 0, "canary", 1), func(b *Bounds) { b.Unwind = 70 })
+		j.Canary = "c19.canary"
+		return append(js, j)
+	}
+}
+
 func sprintf(f string, a ...interface{}) string { return fmt.Sprintf(f, a...) }
